@@ -29,7 +29,9 @@ void mp::internal::WriteMessage(fmt::BufferedFile &file, const char *message) {
       ++line_end;
     // Replace an empty line with a line containing a single space
     // because an empty line indicates the end of message.
-    if (line_end == line_start
+    // A line holding only a CR (blank line of a CRLF text) reads as empty too.
+    if ((line_end == line_start
+         || (line_end == line_start + 1 && *line_start == '\r'))
         && *line_end)           // but not when end of string
       std::fputc(' ', file.get());
     else {
